@@ -1,0 +1,20 @@
+// +build verif
+
+// Verification hooks (build tag "verif" only): the credential table of the FTP
+// service is fixed in the constructor and its type has unexported fields, so
+// a harness outside the package cannot build the checker over another table.
+package ftp
+
+import (
+	"github.com/honeytrap/honeytrap/services"
+)
+
+// VerifAuth returns the package's credential checker over the given table.
+func VerifAuth(users map[string]string) Auth {
+	return &User{users: users}
+}
+
+// VerifSetAuth replaces the credential checker of an FTP service created by FTP().
+func VerifSetAuth(s services.Servicer, a Auth) {
+	s.(*ftpService).server.Auth = a
+}
